@@ -98,6 +98,14 @@ def check(tier, seed, replay=None):
             if rnd.random() < 0.5:
                 cfg["selects"] = cfg["selects"] + [{"name": X.cps("BIG"), "e": PL.field("big")}]
             PC.add_ref(pipe, cfg, rows, rnd)
+        # --unique, --sort-by and --group-by on neighbours that share their nearest double: different numbers are different rows / keys
+        for a in (2**53, 2**64 - 2, -(2**63), 2**63 - 1, 10**18 + 1, 2**60 + 7):
+            near = [a, a + 1, a, a + 2 if a + 2 < 2**64 else a - 1, a + 1]
+            for shape in ("bare", "obj"):
+                rows = [("num", str(x)) if shape == "bare" else ("obj", [(X.cps("big"), ("num", str(x))), (X.cps("t"), ("str", X.cps("same")))]) for x in near]
+                PC.add_ref(pipe, PL.mkcfg(unique=True), rows, rnd)
+                PC.add_ref(pipe, PL.mkcfg(unique=True, selects=[{"name": X.cps("B"), "e": PL.field("big") if shape == "obj" else PL.SELF}]), rows, rnd)
+                PC.add_ref(pipe, PL.mkcfg(sorts=[{"e": PL.field("big") if shape == "obj" else PL.SELF, "desc": False}]), rows, rnd)
         # (b) number-as-string functions
         for i in range(1200 if quick else 120000):
             a, b = rand_decimal(rnd), rand_decimal(rnd)
